@@ -181,7 +181,10 @@ def _attrs(r, schemas, me, names):
         k = r.random()
         if k < 0.7:
             use = r.choice(["", "", ' use="required"', ' use="optional"', ' use="prohibited"', ' default="x"', ' fixed="y"'])
-            out += f'<xs:attribute name={quoteattr(names())} type="{_type_ref(r, schemas, me, simple_only=True)}"{use}/>'
+            tp = _type_ref(r, schemas, me, simple_only=True)
+            if "default" in use or "fixed" in use:
+                tp = "xs:string"      # a default must be valid for the type, else the schema itself is invalid
+            out += f'<xs:attribute name={quoteattr(names())} type="{tp}"{use}/>'
         elif k < 0.85:
             got = _ref(r, schemas, me, "attributes")
             if got:
